@@ -103,3 +103,22 @@ def register(reg):
                  # names of hidden objects are dropped before anything is linked
                  ensures=['all(implies(n in system.allobjects, visible(system.allobjects[n])) for n in lst)'],
                  loops={0: Loop(index='i', invariant=['all(implies(n in system.allobjects, visible(system.allobjects[n])) for n in lst2)'])})
+    _index_roots(reg)
+
+
+def _index_roots(reg):
+    """the list of root objects on the index page: only visible roots, linked from index.html (regression guard for a8ca556)"""
+    S = 'pydoctor/templatewriter/summary.py'
+    reg.shape('Page', {'system': 'Ref[System]'})
+    reg.shape('IndexPage', {}, bases=('Page',))
+    reg.shapes['System'].fields.update({'rootobjects': 'Seq[Ref[Module]]'})
+    reg.assume_ext('<Tag>.clone', params={'self': 'Obj[Tag]'}, returns='Obj[Tag]', raises={}, source='stan')
+    reg.assume_ext('<Tag>.fillSlots', params={'self': 'Obj[Tag]', 'root': 'Obj[Tag]'}, returns='Obj[Tag]', raises={}, source='stan')
+    reg.assume_ext('twisted.web.template.tags.code', params={'child': 'Any'}, returns='Obj[Tag]', raises={}, source='stan')
+    reg.contract(S, 'IndexPage.roots', params={'request': 'Obj[Req]', 'tag': 'Obj[Tag]'}, returns='Seq[Obj[Tag]]', raises={},
+                 modifies=['violations', 'once_msgs', 'needsnl'], locals={'r': 'Seq[Obj[Tag]]'},
+                 requires=["forall('Ref[Documentable]', lambda x: implies(x.documentation_location != DocLocation.OWN_PAGE, x.parent is not None) "
+                           "and x.parent != x)"],
+                 ensures=['len(result) <= len(self.system.rootobjects)'],
+                 loops={0: Loop(index='i', modifies=['violations', 'once_msgs', 'needsnl'], invariant=['len(r) <= i'],
+                                asserts=["implies(called('taglink'), visible(arg_of('taglink', 'o')) and arg_of('taglink', 'page_url') == 'index.html')"])})
